@@ -34,6 +34,11 @@ def _ps(p):
 
 def cases(rng, tier):
     yield from _wide_cases(rng, tier)
+    for n in (1, 2, 3):
+        # groups with nothing to measure (the forced dummy measurement)
+        yield ("measure", {"n": n, "general": "I" * n, "members": [{"l": "I" * n, "p": 0}],
+                           "prep": gen.rand_instrs(rng, n, 3, barriers=False, families="integer"), "wrong_width": False, "locs": None, "ncirc": n,
+                           "cregs": [], "always_oracle": True})
     N = 120 if tier == "quick" else 2000
     for _ in range(N):
         n = rng.randint(1, 6)
@@ -65,8 +70,16 @@ def cases(rng, tier):
         n = rng.randint(1, 5)
         gl = "".join(rng.choice("IIXYZ") for _ in range(n))
         members = [{"l": "".join(rng.choice([g, "I"]) for g in gl), "p": 0} for _ in range(rng.randint(1, 4))]
-        prep = gen.rand_instrs(rng, n, rng.randint(0, 6), barriers=False, families="integer")
-        yield ("measure", {"n": n, "general": gl, "members": members, "prep": prep, "wrong_width": rng.random() < 0.05,
+        locs, ncirc = None, n
+        r_ = rng.random()
+        if r_ < 0.2:
+            locs = list(range(n)); rng.shuffle(locs)                        # a permutation
+        elif r_ < 0.35:
+            ncirc = n + rng.randint(1, 2)
+            locs = rng.sample(range(ncirc), n)                                # an embedding into a wider circuit
+        prep = gen.rand_instrs(rng, ncirc, rng.randint(0, 6), barriers=False, families="integer")
+        yield ("measure", {"n": n, "general": gl, "members": members, "prep": prep, "wrong_width": locs is None and rng.random() < 0.05,
+                           "locs": locs, "ncirc": ncirc,
                            # classical registers that exist before the observable register is appended
                            "cregs": rng.choice([[], [], [["qpd_measurements", 2]], [["flag", 1]], [["a", 1], ["b", 3]]])})
 
@@ -107,11 +120,11 @@ def model_line(kind, payload):
                    "indices": [int(i) for i in g.pauli_indices], "masks": [int(m) for m in g.pauli_bitmasks]} for g in oc.groups]
         lookup = [[_ps(p), [[int(a), int(b)] for a, b in locs]] for p, locs in oc.lookup.items()]
         return {"op": "c11.check_collection", "obs": payload["obs"], "groups": groups, "lookup": lookup}
-    n = payload["n"] + (1 if payload["wrong_width"] else 0)
+    n = payload.get("ncirc", payload["n"]) + (1 if payload["wrong_width"] else 0)
     qc = canon.build_circuit({"nq": n, "instrs": payload["prep"], "cregs": payload.get("cregs", [])})
     cog = _cog(payload)
     return {"op": "c11.append_measurement", "circuit": canon.canon_circuit(qc), "general": {"l": payload["general"], "p": 0},
-            "indices": [int(i) for i in cog.pauli_indices]}
+            "indices": [int(i) for i in cog.pauli_indices], "locs": payload.get("locs")}
 
 
 def run_real(kind, payload):
@@ -129,14 +142,15 @@ def run_real(kind, payload):
     if kind == "collection":
         _collection(payload)
         return {"ok": {"valid": True, "general_recomputed": True}}
-    n = payload["n"] + (1 if payload["wrong_width"] else 0)
+    n = payload.get("ncirc", payload["n"]) + (1 if payload["wrong_width"] else 0)
     qc = canon.build_circuit({"nq": n, "instrs": payload["prep"], "cregs": payload.get("cregs", [])})
     cog = _cog(payload)
+    kw = {} if payload.get("locs") is None else {"qubit_locations": list(payload["locs"])}
     before_qc = canon.canon_circuit(qc)
     q2 = _append_measurement_register(qc, cog)
     before_q2 = canon.canon_circuit(q2)
-    q3 = _append_measurement_circuit(q2, cog)
-    q3b = _append_measurement_circuit(q2, cog)   # a second out-of-place call on the same base (one per commuting group in practice)
+    q3 = _append_measurement_circuit(q2, cog, **kw)
+    q3b = _append_measurement_circuit(q2, cog, **kw)   # a second out-of-place call on the same base (one per commuting group in practice)
     if canon.canon_circuit(qc) != before_qc or canon.canon_circuit(q2) != before_q2:
         return {"ok": {"input_mutated": "an out-of-place call changed its input circuit"}}
     if canon.canon_circuit(q3b) != canon.canon_circuit(q3):
@@ -266,13 +280,29 @@ def oracle(kind, payload):
     if isinstance(real.get("ok"), dict) and "input_mutated" in real["ok"]:
         return "_append_measurement_circuit(inplace=False): " + real["ok"]["input_mutated"]
     cog = _cog(payload)
-    qc = canon.build_circuit({"nq": payload["n"], "instrs": payload["prep"], "cregs": payload.get("cregs", [])})
-    true = sem.expectations(qc, [m["l"] for m in payload["members"]])
+    ncirc = payload.get("ncirc", payload["n"])
+    locs = payload.get("locs")
+    qc = canon.build_circuit({"nq": ncirc, "instrs": payload["prep"], "cregs": payload.get("cregs", [])})
+
+    def place(lab):
+        # the member's letters at the circuit positions given by qubit_locations, identity elsewhere
+        if locs is None:
+            return lab
+        out = ["I"] * ncirc
+        for i, ch in enumerate(lab):
+            out[locs[i]] = ch
+        return "".join(out)
+    true = sem.expectations(qc, [place(m["l"]) for m in payload["members"]])
     try:
-        qm = _append_measurement_circuit(_append_measurement_register(qc, cog), cog)
+        kw = {} if locs is None else {"qubit_locations": list(locs)}
+        qm = _append_measurement_circuit(_append_measurement_register(qc, cog), cog, **kw)
     except Exception as ex:
         return f"appending measurements raised {type(ex).__name__}: {ex}"
     dec = _decode(qm, cog, payload["members"], base=sum(w for _, w in payload.get("cregs", [])))
     if not np.allclose(true, dec, atol=1e-9):
         return f"decoded {dec} but true expectations are {true}"
+    # the group itself is a record of where its members act: using it must not change it
+    want_idx = [i for i, ch in enumerate(payload["general"]) if ch != "I"]
+    if [int(i) for i in cog.pauli_indices] != want_idx:
+        return f"after building the measurement circuit and decoding, the group records qubit indices {list(cog.pauli_indices)}, its members act on {want_idx}"
     return None
